@@ -32,6 +32,22 @@ def reaching_defs(func, name, at):
     return out
 
 
+def carried_over(func, name, at):
+    """Definitions of `name` inside a loop around `at` whose value can arrive at `at` in a *later* iteration: the
+    loop header is reachable from the definition and `at` from the header, meeting no definition of the name."""
+    cfg = func.cfg
+    ids = frozenset(d[0] for d in name_defs(func, name))
+    out = []
+    for nid in ids:
+        for h in cfg.nodes[at].loops:
+            if h not in cfg.nodes[nid].loops:
+                continue
+            if h in cfg.reach(nid, avoid=ids - {nid}) and (at == h or at in cfg.reach(h, avoid=ids)):
+                out.append(nid)
+                break
+    return out
+
+
 def path_facts(cfg, d, at, avoid=frozenset()):
     """Normal forms of the assume nodes every path d -> at (avoiding `avoid`) passes through."""
     avoid = frozenset(avoid)
